@@ -768,7 +768,7 @@ def search_composed(ck: Ck, found: dict) -> None:
         k = 360 // step
         return [(float(step * i), float(step * j), float(step * l)) for i in range(k) for j in range(k) for l in range(k)]
     cands: list[tuple[tuple, tuple, str]] = []
-    for step, rows in ((45, None), (15, ck.budget(0, 150))):
+    for step, rows in ((45, None), (15, ck.budget(0, 60))):
         G = grid(step)
         fw = [ref_from_angle(*g)[0] for g in G]
         col = [[r[2] for r in ref_from_angle(*g)] for g in G]
@@ -779,9 +779,9 @@ def search_composed(ck: Ck, found: dict) -> None:
                 if abs(fx * cx + fy * cy + fz * cz) >= 1 - 1e-12:
                     cands.append((G[ia], G[ib], f'vertical-grid{step}'))
     ck.rng.shuffle(cands)
-    n_vert = ck.budget(2500, 60000)
+    n_vert = ck.budget(2500, 12000)
     cands = cands[:n_vert]
-    for _ in range(ck.budget(300, 5000)):
+    for _ in range(ck.budget(300, 3000)):
         cands.append((gen_angle(ck.rng)[0], gen_angle(ck.rng)[0], 'random'))
     for k, (a, b, cls) in enumerate(cands):
         form = ('matrix', 'angle', 'imatmul')[k % 3]
@@ -804,8 +804,26 @@ def theorems_with_axioms(ck: Ck, props_file: str = 'Props/C04.v') -> None:
     import re
     from harness.common import ROCQ
     names = re.findall(r"^\s*(?:Theorem|Lemma|Corollary)\s+([A-Za-z0-9_']+)", (ROCQ / props_file).read_text(), re.M)
-    body = 'Require Import SV.Props.C04.\n' + ''.join(f'Print Assumptions {n}.\n' for n in names)
-    rc, out = ck.coq_scratch(body, 'assumptions')
+    # Print Assumptions walks the whole dependency graph of its argument (more than a second per theorem over Coq.Reals).
+    # Quick tier: ONE traversal of the tuple of all theorems = the union of their axioms (recorded for every theorem as an
+    # upper bound).  Thorough tier: one traversal per theorem, spread over several coqc processes side by side.
+    from concurrent.futures import ThreadPoolExecutor
+    union_only = not ck.thorough
+    if union_only:
+        rc, out = ck.coq_scratch('Require Import SV.Props.C04.\nDefinition c04_all_theorems := (' + ', '.join(names) + ').\n'
+                                 'Print Assumptions c04_all_theorems.\n', 'assumptions')
+    else:
+        nchunk = min(8, max(1, len(names)))
+        chunks = [names[i::nchunk] for i in range(nchunk)]
+
+        def one(k: int) -> tuple[int, str]:
+            return ck.coq_scratch('Require Import SV.Props.C04.\n' + ''.join(f'Print Assumptions {n}.\n' for n in chunks[k]),
+                                  f'assumptions{k}')
+        with ThreadPoolExecutor(max_workers=nchunk) as ex:
+            results = list(ex.map(one, range(nchunk)))
+        rc = max(r[0] for r in results)
+        out = '\n'.join(r[1] for r in results)
+        names = [n for ch in chunks for n in ch]
     if rc != 0:
         ck.obligation(f'assumptions:{props_file}', False, out[-2000:])
         ck.tie_broken.append(f'Print Assumptions failed for {props_file}')
@@ -828,12 +846,15 @@ def theorems_with_axioms(ck: Ck, props_file: str = 'Props/C04.v') -> None:
                 cur.append(m.group(1))
     if cur is not None:
         blocks.append(cur)
+    if union_only and len(blocks) == 1:
+        blocks = [blocks[0]] * len(names)
     if len(blocks) != len(names):
         ck.obligation(f'assumptions:{props_file}', False, f'{len(names)} theorems but {len(blocks)} Print Assumptions blocks')
         return
     for n, b in zip(names, blocks):
         ck.axioms[n] = b
-        ck.obligation(f'theorem:{n}', True, 'Qed; axioms: ' + ('none (closed under the global context)' if not b else ', '.join(b)))
+        ck.obligation(f'theorem:{n}', True, 'Qed; axioms: ' + ('none (closed under the global context)' if not b else
+                      ('within (union over Props/C04.v; per theorem in the thorough tier): ' if union_only else '') + ', '.join(b)))
     allowed = {'ClassicalDedekindReals.sig_forall_dec', 'ClassicalDedekindReals.sig_not_dec',
                'FunctionalExtensionality.functional_extensionality_dep'}
     used = {a for b in blocks for a in b}
